@@ -85,7 +85,7 @@ def load(tier):
     for ob in OBLIGATIONS:
         if ob.id == 'C07.a':
             ob.witnesses = [{'shape': w, 'a': 1, 'b': 1}, {'shape': w, 'a': -3, 'b': 1}]
-        else:
+        elif ob.id == 'C07.b':
             ob.witnesses = [{'shape': w}]
 
 
@@ -191,28 +191,46 @@ def _b_body(i):
 LONG_M = (80, 320, 1000)
 
 
-def ob_c(k: int, a: int, b: int) -> bool:
-    """Long scores: M measures of 4 data rows; the range arithmetic on symbolic integers far from the ends."""
+def _pairs(M):
+    """In-range pairs near the start, the middle and the end of a long score, and the out-of-range pairs around them."""
+    As = sorted({1, 2, 3, M // 2 - 1, M // 2, M // 2 + 1, M - 2, M - 1, M})
+    out = []
+    for a in As:
+        for b in (a, a + 1, a + 2, M):
+            if a <= b <= M and (a, b) not in out:
+                out.append((a, b))
+    out += [(-1, 3), (1, M + 1), (M, M + 1), (M + 1, M + 1), (M // 2, M // 2 - 1), (M, 1), (-2, -1), (0, M + 7)]
+    return out
+
+
+def ob_c(k: int, j: int) -> bool:
+    """Long scores: M measures of 4 data rows; ranges far from the ends, at the ends, and the out-of-range pairs."""
     n = ctx.pick(2, 3)
     assume(0 <= k < n)
     kc = choose(k, n)
-    sc, doc, M = _long(kc)
+    np_ = _npairs(kc)
+    assume(0 <= j < np_)
+    return _c_body(kc, choose(j, np_))
+
+
+@native
+def _npairs(k):
+    return len(_pairs(_long(k)[2]))
+
+
+@native
+def _c_body(k, j):
+    sc, doc, M = _long(k)
+    a, b = _pairs(M)[j]
     try:
         out = kp.dumps(doc, from_measure=a, to_measure=b)
     except ValueError:
-        check(a < 0 or b > M or b < a, lambda: f'ValueError for a valid range from_measure={concrete(a)} to_measure={concrete(b)} (M={M})')
+        check(a < 0 or b > M or b < a, f'ValueError for a valid range from_measure={a} to_measure={b} (M={M})')
         return True
-    check(not (a < 0 or b > M or b < a), lambda: f'out-of-range pair from_measure={concrete(a)} to_measure={concrete(b)} (M={M}) was not rejected with ValueError')
-    if a == 0:
-        return True
-    # the exported range is compared for a window of pairs: the first three and last three measures, and three in the middle
-    assume(a <= 3 or a >= M - 2 or M // 2 - 1 <= a <= M // 2 + 1)
-    assume(b - a <= 2 or b == M)
-    check(SENTINEL not in out, 'tripwire: opaque number sentinel reached exported text')
-    ac, bc = concrete(a), concrete(b)
-    exp = _expected(sc, ac, bc, [0])
-    got = rm.parse(concrete(out))
-    check(got == exp, lambda: f'M={M} from_measure={ac} to_measure={bc}: exported {len(got)} lines {got[:6]}..., expected {len(exp)} lines {exp[:6]}...')
+    check(not (a < 0 or b > M or b < a), f'out-of-range pair from_measure={a} to_measure={b} (M={M}) was not rejected with ValueError')
+    exp = _expected(sc, a, b, [0])
+    got = rm.parse(out)
+    check(got == exp, f'M={M} from_measure={a} to_measure={b}: exported {len(got)} lines {got[:6]}..., expected {len(exp)} lines {exp[:6]}...')
     return True
 
 
@@ -251,14 +269,12 @@ OBLIGATIONS = [
                'thorough': 'M<=3 with 0..2 rows per measure, M=4 with 0..1 rows, pickup 0..2, + {2 kern + text}; first-cell kinds for M<=2; blank-line variants for M<=3'},
        assumptions=['symbolic numbers are rendered opaquely inside error messages (tripwire: the sentinel must not reach exported text; native re-runs use real formatting)'],
        describe=_desc),
-    Ob(id='C07.c', fn=ob_c, title='long scores: range export and rejection for all integer pairs on scores of 80..1000 measures',
-       shard_of=lambda k, a, b: k, shards={'quick': 2, 'thorough': 3}, budget_s={'quick': 170, 'thorough': 1200}, opaque_numbers=True, untrace=UNTRACE,
-       witnesses=[{'k': 0, 'a': 2, 'b': 3}, {'k': 1, 'a': -1, 'b': 3}], min_confirmed=20,
-       symbolic='from_measure, to_measure: unbounded integers (rejection and acceptance decided for ALL pairs; exported text compared for the pairs of the window)',
-       enumerated='score length',
-       bounds={'quick': 'one-spine scores of 80 and 320 measures x 4 data rows (closing barline counted: M = 81 / 321); text compared for a in the first / middle / last three measures and b - a <= 2 or b = M',
-               'thorough': '+ 1000 measures'},
-       assumptions=['symbolic numbers are rendered opaquely inside error messages (tripwire-guarded)']),
+    Ob(id='C07.c', fn=ob_c, title='long scores (80..1000 measures): ranges at the start, in the middle and at the end; out-of-range pairs rejected',
+       shard_of=lambda k, j: j, shards={'quick': 4, 'thorough': 8}, budget_s={'quick': 150, 'thorough': 900}, native_body=True,
+       witnesses=[{'k': 0, 'j': 0}, {'k': 1, 'j': 5}], min_confirmed=40,
+       enumerated='score length, (from_measure, to_measure) pair from a window list',
+       bounds={'quick': 'one-spine scores of 80 and 320 measures x 4 data rows (closing barline counted: M = 81 / 321) x about 40 pairs: a in the first / middle / last three measures, b in {a, a+1, a+2, M}, 8 out-of-range pairs',
+               'thorough': '+ 1000 measures'}),
     Ob(id='C07.b', fn=ob_b, title='single-measure exports partition the data lines; iteration yields 1..M',
        shard_of=lambda shape: shape, shards={'quick': 8, 'thorough': 16}, budget_s={'quick': 120, 'thorough': 900},
        witnesses=[{'shape': 5}], min_confirmed=200, enumerated='score shape selector',
